@@ -15,6 +15,7 @@ import (
 	"path/filepath"
 	"reflect"
 	"regexp"
+	"sort"
 	"strings"
 	"time"
 )
@@ -81,6 +82,19 @@ func RunInspections(layout Layout, runDir string, lineNormalization bool, useDSS
 	return inspectionMetadata, nil
 }
 
+// cleanArtifactPaths returns a copy of the passed artifact map with cleaned
+// paths. The passed map is left untouched; names are processed in sorted
+// order so that the result does not depend on map iteration order.
+func cleanArtifactPaths(artifacts map[string]HashObj) map[string]HashObj {
+	names := artifactsDictKeyStrings(artifacts)
+	sort.Strings(names)
+	cleaned := make(map[string]HashObj, len(artifacts))
+	for _, name := range names {
+		cleaned[path.Clean(name)] = artifacts[name]
+	}
+	return cleaned
+}
+
 // verifyMatchRule is a helper function to process artifact rules of
 // type MATCH. See VerifyArtifacts for more details.
 func verifyMatchRule(ruleData map[string]string,
@@ -114,18 +128,8 @@ func verifyMatchRule(ruleData map[string]string,
 	if ruleData["pattern"] != "" {
 		ruleData["pattern"] = path.Clean(ruleData["pattern"])
 	}
-	for k := range srcArtifacts {
-		if path.Clean(k) != k {
-			srcArtifacts[path.Clean(k)] = srcArtifacts[k]
-			delete(srcArtifacts, k)
-		}
-	}
-	for k := range dstArtifacts {
-		if path.Clean(k) != k {
-			dstArtifacts[path.Clean(k)] = dstArtifacts[k]
-			delete(dstArtifacts, k)
-		}
-	}
+	srcArtifacts = cleanArtifactPaths(srcArtifacts)
+	dstArtifacts = cleanArtifactPaths(dstArtifacts)
 
 	// Normalize optional source and destination prefixes, i.e. if
 	// there is a prefix, then add a trailing slash if not there yet
